@@ -1,4 +1,9 @@
-"""Per-property configuration of bin/check."""
+"""Per-property configuration of bin/check: one JSON file per property in bin/props/."""
+import glob
+import json
+import os
+
+HERE = os.path.dirname(os.path.abspath(__file__))
 
 COMMON_TB = [
     "Coq 8.16.1 kernel (coqc); vm_compute for evaluating the model on generated cases; no native_compute",
@@ -6,17 +11,10 @@ COMMON_TB = [
     "Go harness + generators (harness/), Coq term printer (harness/internal/cq), result parser and classifier (bin/check)",
 ]
 
-PROPS = {
-    "C20": {
-        "gen": "c20",
-        "coq_targets": ["Properties/C20.v", "Check/C20Check.v"],
-        "property_files": ["Properties/C20.v"],
-        "trusted_base": COMMON_TB + [
-            "NTP float kernels are executed with Coq primitive floats (hardware binary64) and compared bit-for-bit with Go; "
-            "float-level claims (monotone, 1 us) are validated on sampled instants, not proved; the integer/bit layer is proved for every kernel",
-            "int64 modelled as unbounded Z (no overflow below 2^47 wraps)",
-        ],
-        "assumptions": ["pkg/verifhooks (build tag verif) re-exports internal/sequencenumber and internal/ntp unchanged"],
-        "explanation": "unwrapper: theorems for all input sequences; NTP: bit layer proved for all values and kernels, float layer validated",
-    },
-}
+PROPS = {}
+for f in sorted(glob.glob(os.path.join(HERE, "props", "C*.json"))):
+    c = json.load(open(f))
+    if not c.get("enabled", True):
+        continue
+    c["trusted_base"] = COMMON_TB + c.get("trusted_base", [])
+    PROPS[os.path.basename(f)[:-5]] = c
